@@ -249,6 +249,11 @@ class Interp:
             if isinstance(o, dict) and not isinstance(o, Obj) and (key in o or tgt['cs'].endswith('operator[]')):
                 o[key] = v
                 return
+        if tgt['k'] == 'UnaryOperator' and tgt.get('op') == '*':
+            base = self.eval(fn, fn.stmts[tgt['c'][0]], env)
+            if isinstance(base, tuple) and len(base) == 2 and base[0] == 'ptr' and isinstance(base[1], Obj) and 'v' in base[1]:
+                base[1]['v'] = v          # a pointer to a value cell modelled as Obj(v=...)
+                return
         raise OutOfFragment('assignment target %s' % tgt['k'])
 
     def call_node(self, fn, n, env):
